@@ -234,9 +234,9 @@ pub fn explorer_plan(prop: &str, thorough: bool) -> Option<Plan> {
             Plan {
                 profile: p,
                 cases: (3000, 60000),
-                required: &["dumps_decoded", "entries_decoded", "forests_with_splits", "forests_with_item_children"],
+                required: &["dumps_decoded", "entries_decoded", "leaf_headers_checked", "forests_with_splits", "forests_with_item_children"],
                 custom_gen: None,
-                rule: "backward direction: case = explorer history over 1-3 indexes (all metrics, metric changes, all-bit-pattern values); every raw dump taken after a successful build must parse under the harness's reference decoder of the documented layout (keys, node tags, child kinds, leaf header + vector sizes at the declared dimension, roaring buckets, metadata, version record, key order); non-trivial+distinct = distinct forest shapes with splits",
+                rule: "backward direction: case = explorer history over 1-3 indexes (all metrics, metric changes, all-bit-pattern values); every raw dump taken after a successful build must parse under the harness's reference decoder of the documented layout (keys, node tags, child kinds, leaf header + vector sizes at the declared dimension, roaring buckets, metadata, version record, key order) and every leaf header must hold what the layout prescribes for its metric (zero bias; the vector's norm; sqrt of the padded length; (sqrt(M^2-|v|^2), M^2) for DotProduct); non-trivial+distinct = distinct forest shapes with splits",
             }
         }
         "C18" => {
